@@ -91,7 +91,11 @@ func C09(c *Ctx) {
 					fmt.Printf("UNPROVED %-8s %s  %s  %s :: %s\n", s.Kind, c.P.Pos(instrPos(s.Instr)), load.ShortFunc(f), s.Expr, s.Reason)
 				}
 			}
-			r.Check("C09.bounds", load.ShortFunc(f), s.Kind+":"+s.Expr, c.P.Pos(instrPos(s.Instr)), s.OK, s.Reason)
+			coarse := ""
+			if s.Coarse != "" {
+				coarse = s.Kind + ":" + s.Coarse
+			}
+			r.CheckAlt("C09.bounds", load.ShortFunc(f), s.Kind+":"+s.Expr, coarse, c.P.Pos(instrPos(s.Instr)), s.OK, s.Reason)
 		}
 	}
 	// ---- self-deadlock: a handler that holds a mutex calls (transitively) a function that locks it again
